@@ -221,11 +221,6 @@ pub fn in_range(signed: bool, low: &[u8], high: &[u8], x: &[u8]) -> bool {
     cmp(signed, low, x) != Ordering::Greater && cmp(signed, x, high) != Ordering::Greater
 }
 
-/// x - low as u64 (offset inside a range), if it fits
-pub fn offset_u64(low: &[u8], x: &[u8]) -> Option<u64> {
-    to_u64(&sub(x, low))
-}
-
 /// vectors for the Python cross-check: one line per case, hex operands are little-endian byte strings
 pub fn selftest_lines(seed: u64, n: usize) -> Vec<String> {
     use crate::json::hex;
